@@ -48,3 +48,9 @@ package cert
 //@   ensures err == nil ==> conf != nil && !conf.InsecureSkipVerify
 //@   ensures err == nil && m.RequireClientCert ==> conf.ClientAuth == tls.RequireAndVerifyClientCert   :client_certificates_enforced
 //@   ensures err == nil && !m.RequireClientCert ==> conf.ClientAuth == tls.NoClientCert
+
+// ---- logging of the peer's certificate chain: reads the connection state only
+//@ func PrintPeerCertificates
+//@   property C05, C04
+//@   pure
+//@   trusted "walks the connection wrappers and logs the last peer certificate; writes nothing"
